@@ -168,6 +168,49 @@ impl EvmStub {
 }
 
 // ------------------------------------------------------------------------------------------
+// Gate control for the store's background bodies (process-wide, see hook H2). When installed and
+// `hold` is set, disk writes / deletes / flushes park until `gates_release_all`; otherwise they are
+// released as soon as they arrive.
+// ------------------------------------------------------------------------------------------
+pub struct GateCtl {
+    rx: mpsc::UnboundedReceiver<ant_networking::verif_hooks::GateEvent>,
+    pub hold: bool,
+    parked: Vec<ant_networking::verif_hooks::GateReq>,
+}
+static GATECTL: Mutex<Option<GateCtl>> = Mutex::new(None);
+
+pub fn gates_install() {
+    let rx = ant_networking::verif_hooks::install_gate_controller();
+    *GATECTL.lock().expect("gate lock") = Some(GateCtl { rx, hold: false, parked: vec![] });
+}
+pub fn gates_hold(hold: bool) {
+    if let Some(g) = GATECTL.lock().expect("gate lock").as_mut() {
+        g.hold = hold;
+    }
+}
+/// number of bodies currently parked
+pub fn gates_tick() -> usize {
+    use ant_networking::verif_hooks::GateEvent;
+    let mut guard = GATECTL.lock().expect("gate lock");
+    let Some(g) = guard.as_mut() else { return 0 };
+    while let Ok(ev) = g.rx.try_recv() {
+        if let GateEvent::Arrived(req) = ev {
+            if g.hold { g.parked.push(req); } else { let _ = req.release.send(()); }
+        }
+    }
+    g.parked.len()
+}
+pub fn gates_release_all() -> usize {
+    let mut guard = GATECTL.lock().expect("gate lock");
+    let Some(g) = guard.as_mut() else { return 0 };
+    let n = g.parked.len();
+    for req in g.parked.drain(..) {
+        let _ = req.release.send(());
+    }
+    n
+}
+
+// ------------------------------------------------------------------------------------------
 // One real node
 // ------------------------------------------------------------------------------------------
 pub struct NodeH {
@@ -210,6 +253,7 @@ impl NodeH {
     /// Serve every pending local command through the real handler; collect network commands and events.
     pub fn serve_pending(&mut self) -> usize {
         let mut n = 0;
+        gates_tick();
         while let Some(cmd) = self.driver.verif_try_recv_local_cmd() {
             let _ = self.driver.verif_handle_local_cmd(cmd);
             n += 1;
